@@ -320,7 +320,7 @@ PROPS = {
         rule='claims-sets of both profiles, valid and invalid in one claim (C01 alternatives), incl. profile-1 sets with an empty component list (the case the marshallers normalise): a fresh Evidence holding the claims-set is signed with one of five real keys, the token is decoded by DecodeEvidenceFromCOSE and the input buffer is then overwritten; random sequences of 2..30 read-side calls (Validate, all getters, EncodeClaimsToCBOR / JSON and the validating twins on the claims-set; Verify with the right or another key, MarshalJSON, getters on the signing Evidence; Verify, getters, Validate, encodings, MarshalJSON on the decoded Evidence), every fourth call repeated at once; before and after every call a reflect-based deep dump (following pointers and interfaces, unexported fields included, no addresses) of the claims-set and of both Evidence objects is compared; every result is compared with the model; distinct = distinct input line',
     ),
     'C12': dict(
-        cone=WIRE_CONE + ['theories/JsonProofs.v'], level='proof', oracle=_c12_oracle, kernel_maxlen=5000,
+        cone=WIRE_CONE + ['theories/JsonProofs.v', 'theories/JsonRoundtrip.v', 'theories/JsonCross.v'], level='proof', oracle=_c12_oracle, kernel_maxlen=5000,
         nontrivial=lambda i, o: ' e' in o or o.startswith('err') or '22' in i.split(' ')[12] or '5c' in i.split(' ')[12] or i.split(' ')[2] == '_',
         classify=lambda i, o: 'P%s profile=%s decode=%s' % (i.split(' ')[1], 'absent' if i.split(' ')[2] == '_' else 'set', (o.split(' ') + ['-'])[1][:3]),
         rule='valid claims-sets of both profiles (generator of C03: random optional subsets, hash sizes, 0..4 components, negative client ids, profile-1 sets with no profile claim) with verification-service / measurement-type / description texts drawn from non-ASCII, quote, backslash, control, HTML-special, emoji and DEL samples, plus sets with one claim replaced by a C01 alternative: EncodeClaimsToJSON (JSON tree compared member by member, in order, with the model), DecodeClaimsFromJSON of it (all getters compared with the model and, for valid sets, with the getters of the original), CBOR -> claims -> JSON -> claims -> CBOR byte equality, Evidence.MarshalJSON, ValidateAndEncodeClaimsToJSON, DecodeAndValidateClaimsFromJSON; non-trivial = something fails, or a text needs JSON escaping, or no explicit profile claim',
@@ -337,8 +337,8 @@ PROPS = {
     ),
     'C01': dict(
         cone=CLAIMS_CONE, level='proof',
-        nontrivial=_c01_nontrivial, classify=_c01_class,
-        rule='per profile: every alternative (absent / boundary / just-outside / wrong shape; byte lengths 0..80 exhaustively; single-edit neighbourhood of both certification-reference formats; component lists of 1..4 with one malformed entry at every position; nil container / nil element / flag values) of every claim alone on valid bases, then random combinations of 1..3 deviations, then random valid sets; claims-sets are built directly as Go structs; observed: Validate() and all ten getters (value or errors.Is bits); non-trivial = not everything succeeds; distinct = distinct input line',
+        nontrivial=_c01_nontrivial, classify=lambda i, o: _c01_class(i, o) if i.startswith('C01 ') else _hist_class(i, o),
+        rule='per profile: every alternative (absent / boundary / just-outside / wrong shape; byte lengths 0..80 exhaustively; single-edit neighbourhood of both certification-reference formats; component lists of 1..4 with one malformed entry at every position; nil container / nil element / flag values) of every claim alone on valid bases, then random combinations of 1..3 deviations, then random valid sets, then fully populated claims-sets (through the setters) whose stored component is changed through the retained pointer; claims-sets are built directly as Go structs; observed: Validate() and all ten getters (value or errors.Is bits); non-trivial = not everything succeeds; distinct = distinct input line',
     ),
     'C14': dict(
         cone=['theories/LifecycleProofs.v', 'ties/TieConsts.v'],
